@@ -50,6 +50,12 @@ type c05Case struct {
 	Pending bool `json:"pending,omitempty"`
 	// Reset: where the stream ends it ends in a transport error (connection reset by peer), not in EOF
 	Reset bool `json:"reset,omitempty"`
+	// Earlier (client side): this many clients were created, used for one exchange and closed twice (an
+	// explicit Close and a deferred one) earlier in the process; Sibling: another client is created on a
+	// connection of its own right after the one that is judged, and used after it.  Every receiver sees
+	// its own stream, whatever happened to other connections
+	Earlier int  `json:"earlier,omitempty"`
+	Sibling bool `json:"sibling,omitempty"`
 }
 
 const proxyLine = "PROXY TCP4 192.0.2.1 198.51.100.7 40000 49\r\n\x00"
@@ -117,6 +123,8 @@ func genC05(t *rapid.T) c05Case {
 	}
 	c.Terminal = rapid.SampledFrom([]string{"eof-boundary", "eof-boundary", "eof-mid-header", "eof-mid-body", "stall-timeout", "oversize"}).Draw(t, "terminal")
 	if c.Side == "client" {
+		c.Earlier = rapid.SampledFrom([]int{0, 0, 1, 2}).Draw(t, "earlier_clients_closed_twice")
+		c.Sibling = rapid.IntRange(0, 2).Draw(t, "sibling_client") == 0
 		c.Terminal = rapid.SampledFrom([]string{"eof-boundary", "eof-mid-header", "eof-mid-body", "oversize"}).Draw(t, "terminal_client")
 	}
 	c.Reset = rapid.IntRange(0, 3).Draw(t, "ends_in_reset") == 0
@@ -418,6 +426,20 @@ func runC05(t failer, c c05Case) {
 	}
 	// client side: the peer's stream is fed up front, segmented; Send must return packet after packet
 	log := transport.NewLog()
+	for k := 0; k < c.Earlier; k++ {
+		ev.Class("client:earlier-client-closed-twice")
+		econn := transport.NewConn(transport.NextID(), log, defaultRemote)
+		ecl, err := tq.NewClient(tq.SetClientConn(econn, nonNil(c.Secret)))
+		if err != nil {
+			t.Fatalf("client: %v", err)
+		}
+		econn.Feed(model.Frame(c.Secret, model.Header{Version: 0xc0, Type: 1, Seq: 2, Session: 0xe0 + uint32(k)}, []byte{1, 0, 0, 0, 0, 0}))
+		_ = catch(func() {
+			_, _ = ecl.Send(tq.NewPacket(tq.SetPacketHeader(libHeader(model.Header{Version: 0xc0, Type: 1, Seq: 1, Session: 0xe0 + uint32(k)})), tq.SetPacketBody([]byte{0, 0, 0, 0, 0})))
+			_ = ecl.Close()
+			_ = ecl.Close()
+		})
+	}
 	conn := transport.NewConn(transport.NextID(), log, defaultRemote)
 	cl, err := tq.NewClient(tq.SetClientConn(conn, nonNil(c.Secret)))
 	if err != nil {
@@ -425,6 +447,30 @@ func runC05(t failer, c c05Case) {
 	}
 	conn.Feed(chunks...)
 	conn.FeedEOF()
+	if c.Sibling {
+		ev.Class("client:sibling-connection")
+		sconn := transport.NewConn(transport.NextID(), log, defaultRemote)
+		scl, err := tq.NewClient(tq.SetClientConn(sconn, nonNil(c.Secret)))
+		if err != nil {
+			t.Fatalf("client: %v", err)
+		}
+		sh := model.Header{Version: 0xc0, Type: 2, Seq: 2, Session: 0x51b11b}
+		sbody := consistentBody(2, 23, []byte{0x51})
+		sconn.Feed(model.Frame(c.Secret, sh, sbody))
+		sconn.FeedEOF()
+		defer func() {
+			var resp *tq.Packet
+			var err error
+			if p := catch(func() {
+				resp, err = scl.Send(tq.NewPacket(tq.SetPacketHeader(libHeader(model.Header{Version: 0xc0, Type: 2, Seq: 1, Session: 0x51b11b})), tq.SetPacketBody([]byte{0, 0, 0, 0, 0, 0, 0, 0})))
+			}); p != nil {
+				fail("panic", "Client.Send panics: %v", p)
+			}
+			if err != nil || resp == nil || !bytes.Equal(resp.Body, sbody) || uint32(resp.Header.SessionID) != 0x51b11b {
+				fail("sibling-stream-differs", "the client on the sibling connection did not receive the one packet its peer wrote (err %v)", err)
+			}
+		}()
+	}
 	send := func() (*tq.Packet, error) {
 		req := tq.NewPacket(tq.SetPacketHeader(libHeader(model.Header{Version: 0xc0, Type: 1, Seq: 1, Session: 1})), tq.SetPacketBody([]byte{0, 0, 0, 0, 0}))
 		var resp *tq.Packet
